@@ -5,7 +5,7 @@
 set -euo pipefail
 VERIF="$(cd "$(dirname "$0")/.." && pwd)"
 MODCACHE="$(GOFLAGS=-mod=mod go env GOMODCACHE)"
-DEPS="$VERIF/build/deps"
+DEPS="${VERIF_BUILD:-$VERIF/build}/deps"
 STAMP="$DEPS/.stamp-v4"
 if [ -f "$STAMP" ]; then exit 0; fi
 rm -rf "$DEPS"
